@@ -166,6 +166,14 @@ fn main() {
         for s in HAND {
             cx.case(s, "hand-written");
         }
+        for doc in SHOWCASE {
+            let toks: Vec<String> = doc.split(' ').map(String::from).collect();
+            cx.case(doc, "showcase");
+            for _ in 0..20 {
+                let t = layout(&mut r, &toks);
+                cx.case(&t, "showcase");
+            }
+        }
         let repo = std::env::var("WACV_REPO").unwrap_or_else(|_| "/repo".into());
         for p in wac_files(&repo) {
             if let Ok(src) = std::fs::read_to_string(&p) {
